@@ -309,12 +309,20 @@ theorem refSpecs_lines : ∀ (refs : List Reference) (i : Nat), refs.all wfRef =
       · rfl
       · exact hidx.1
     simp only [List.all_cons, Bool.and_eq_true] at hw
-    simp only [refsFit, Bool.and_eq_true, bne_iff_ne, ne_eq, decide_eq_true_eq] at hf
-    obtain ⟨⟨hrne, hfit⟩, hrest⟩ := hf
+    simp only [refsFit, Bool.and_eq_true, decide_eq_true_eq] at hf
+    obtain ⟨hfit, hrest⟩ := hf
     have hr := hw.1
     simp only [wfRef, Bool.and_eq_true] at hr
     obtain ⟨⟨⟨⟨⟨⟨h1, h2⟩, h3⟩, h4⟩, h5⟩, h6⟩, _⟩ := hr
-    have hs : spacedFrom false r.range = true := by simpa [singleSpaced, hrne] using h1
+    have hpr : Plain r.range ∧ NoNl r.range := by
+      by_cases hrne : r.range = []
+      · rw [hrne]; exact ⟨(fun c hc _ => by cases hc), (fun c hc => by cases hc)⟩
+      · have hs : spacedFrom false r.range = true := by simpa [singleSpaced, hrne] using h1
+        refine ⟨plain_of_spacedFrom _ false hs, ?_⟩
+        intro c hc e
+        subst e
+        have := plain_of_spacedFrom _ false hs _ hc (by decide)
+        exact absurd this (by decide)
     have hplain : Plain (Location.itoa (i + 1) ++ "  ".toList ++ r.range) := by
       intro c hc hsp
       rcases List.mem_append.mp hc with hc | hc
@@ -325,32 +333,34 @@ theorem refSpecs_lines : ∀ (refs : List Reference) (i : Nat), refs.all wfRef =
           rw [e2] at hc
           simp only [List.mem_cons, List.not_mem_nil, or_false, or_self] at hc
           exact hc
-      · exact plain_of_spacedFrom _ false hs c hc hsp
-    have hnonl : NoNl (Location.itoa (i + 1) ++ "  ".toList ++ r.range) := by
-      refine NoNl.append (NoNl.append noNl_of_plain_digits (noNl_lit _ (by decide))) ?_
-      intro c hc e
-      subst e
-      have := plain_of_spacedFrom _ false hs _ hc (by decide)
-      exact absurd this (by decide)
+      · exact hpr.1 c hc hsp
+    have hnonl : NoNl (Location.itoa (i + 1) ++ "  ".toList ++ r.range) :=
+      NoNl.append (NoNl.append noNl_of_plain_digits (noNl_lit _ (by decide))) hpr.2
     have hlen : (Location.itoa (i + 1) ++ "  ".toList ++ r.range).length ≤ 68 := by
       have e2 : ("  ".toList).length = 2 := by decide
       simp only [List.length_append, e2]
       omega
-    have hhead : GbLayout.refHead i (toRRef r) = Location.itoa (i + 1) ++ "  ".toList ++ r.range := by
-      unfold GbLayout.refHead toRRef
-      simp only [hrne, if_false, ofNat_eq_itoa]
-      have e2 : "  ".toList = [' ', ' '] := by decide
-      rw [e2, List.append_assoc]
-    have e1 : "  AUTHORS".toList = ' ' :: ' ' :: "AUTHORS".toList := rfl
+    have e2 : "  ".toList = [' ', ' '] := by decide
+    have hheadLines : blockLines "REFERENCE".toList (Location.itoa (i + 1) ++ "  ".toList ++ r.range)
+        = GbLayout.refHeadLines i (toRRef r) (refLayout r) := by
+      rw [blockLines_short _ hplain hnonl hlen]
+      unfold GbLayout.refHeadLines
+      by_cases hrne : r.range = []
+      · rw [if_pos ⟨rfl, by simp [toRRef, hrne]⟩, hrne, ofNat_eq_itoa]
+        simp [GbLayout.block, GbLayout.wrapText, wrapAux_no_breaks, GbLayout.hang, e2]
+      · rw [if_neg (by simp [toRRef, hrne])]
+        have hhead : GbLayout.refHead i (toRRef r) = Location.itoa (i + 1) ++ "  ".toList ++ r.range := by
+          unfold GbLayout.refHead toRRef
+          simp only [hrne, if_false, ofNat_eq_itoa]
+          rw [e2, List.append_assoc]
+        rw [hhead]
+        rfl
     rw [refSpecs, hnum, specsLines_cons, refSpecs_lines rs (i + 1) hw.2 hrest hidx.2]
     simp only [List.map_cons, GbLayout.refsLines, List.headD_cons, List.tail_cons]
     congr 1
-    unfold specLines GbLayout.refLines GbLayout.refHeadLines
-    -- (w-gbparse, C01 widening) `refLayout` leaves `trailGap` off
-    rw [if_neg (by simp [refLayout])]
+    unfold specLines GbLayout.refLines
     simp only [refSubs, subLines_append, subLines_optSub _ h2, subLines_optSub _ h3, subLines_optSub _ h4,
-      subLines_optSub _ h5, subLines_optSub _ h6, hhead]
-    rw [blockLines_short _ hplain hnonl hlen]
+      subLines_optSub _ h5, subLines_optSub _ h6, hheadLines]
     rfl
 
 open PolyVerif.Spec.GbStrict (singleSpaced wfOther sortedEntries) in
@@ -479,31 +489,56 @@ theorem origin_eq {seq : Str} (h : seq ≠ []) : oLines 0 (chunks 60 seq) = GbLa
 
 /-! ### LOCUS -/
 
-theorem locusLine_eq (x : Sequence) (hm : (molOf x.metadata.locus.moleculeType).text = x.metadata.locus.moleculeType)
-    (ht : x.metadata.locus.circular ≠ x.metadata.locus.linear)
-    (hl : x.metadata.locus.sequenceLength = Str.ofNat x.sequence.length)
-    (hdv : x.metadata.locus.genbankDivision ≠ []) (hdt : x.metadata.locus.modificationDate ≠ []) :
+theorem gapped_append (a b : List (Nat × Str)) :
+    PolyVerif.GbLayout.gapped (a ++ b) = PolyVerif.GbLayout.gapped a ++ PolyVerif.GbLayout.gapped b := by
+  simp [PolyVerif.GbLayout.gapped]
+
+theorem flatten_blank_map : ∀ ws : List Str, ((ws.map fun x => ((0 : Nat), x)).map fun p => Str.spaces (p.1 + 1) ++ p.2).flatten
+    = (ws.map fun w => ' ' :: w).flatten
+  | [] => rfl
+  | w :: ws => by
+    have ih := flatten_blank_map ws
+    simp only [List.map_cons, List.flatten_cons] at ih ⊢
+    rw [ih]
+    rfl
+
+theorem join_blank : ∀ (w : Str) (ws : List Str), Str.join [' '] (w :: ws) = w ++ (ws.map fun x => ' ' :: x).flatten
+  | w, [] => by simp [Str.join]
+  | w, v :: vs => by
+    show w ++ [' '] ++ Str.join [' '] (v :: vs) = _
+    rw [join_blank v vs]
+    simp
+
+/-- a molecule type of several words is written as it stands -/
+theorem gapped_molToks (p : Nat) (mol : Str) :
+    PolyVerif.GbLayout.gapped (PolyVerif.GbLayout.molToks p mol) = if mol = [] then [] else Str.spaces (p + 1) ++ mol := by
+  unfold PolyVerif.GbLayout.molToks
+  split
+  · rfl
+  · have hj := Str.join_splitC ' ' mol
+    cases hs : Str.splitC ' ' mol with
+    | nil => exact absurd hs (Str.splitC_ne_nil ' ' mol)
+    | cons w ws =>
+      rw [hs, join_blank] at hj
+      simp only [PolyVerif.GbLayout.gapped, List.map_cons, List.flatten_cons, flatten_blank_map]
+      rw [List.append_assoc, hj]
+
+/-- the LOCUS line `Build` writes is the C01 LOCUS line with `Build`'s gaps, whichever fields are empty -/
+theorem locusLine_eq (x : Sequence) :
     PolyVerif.GbLayout.locusLine (toRec x).locus (polyLayout x) = locusLine x.metadata.locus := by
-  -- (w-gbparse, C01 widening) C01's LOCUS line is now a token list; with every field present it is the old shape
-  have e0 : "LOCUS       ".toList = ['L', 'O', 'C', 'U', 'S'] ++ spaces 7 := by decide
+  have e0 : "LOCUS       ".toList = ['L', 'O', 'C', 'U', 'S', ' ', ' ', ' ', ' ', ' ', ' ', ' '] := by decide
   have e1 : " bp".toList = [' ', 'b', 'p'] := by decide
-  have hmol1 : x.metadata.locus.moleculeType ≠ [] ∧ ' ' ∉ x.metadata.locus.moleculeType := by
-    rw [← hm]; cases molOf x.metadata.locus.moleculeType <;> decide
-  have hlen1 : x.metadata.locus.sequenceLength ≠ [] := by
-    rw [hl]; exact PolyVerif.Lemmas.Genbank.ofNat_ne_nil _
-  have htopo : (toRec x).locus.topo = some (if x.metadata.locus.circular = true then PolyVerif.GbLayout.Topology.circular
-      else PolyVerif.GbLayout.Topology.linear) := by
-    show (if x.metadata.locus.circular = true then some PolyVerif.GbLayout.Topology.circular
-        else some PolyVerif.GbLayout.Topology.linear) = _
-    cases x.metadata.locus.circular <;> rfl
-  have hshape : (if x.metadata.locus.circular = true then PolyVerif.GbLayout.Topology.circular
-      else PolyVerif.GbLayout.Topology.linear).text = shapeOf x.metadata.locus := by
-    unfold shapeOf
-    cases hc : x.metadata.locus.circular <;> cases hlin : x.metadata.locus.linear <;> simp_all <;> decide
-  rw [PolyVerif.Lemmas.Genbank.locusLine_full (toRec x).locus (polyLayout x) _ hlen1 hmol1 htopo hdv hdt, hshape]
-  unfold locusLine toRec polyLayout PolyVerif.GbLayout.gap
-  simp only [List.getD_cons_zero, List.getD_cons_succ, e0, e1, Str.spaces, spaces, List.append_assoc,
-    List.replicate_zero, List.append_nil]
+  have e2 : "circular".toList = ['c', 'i', 'r', 'c', 'u', 'l', 'a', 'r'] := by decide
+  have e3 : "linear".toList = ['l', 'i', 'n', 'e', 'a', 'r'] := by decide
+  unfold PolyVerif.GbLayout.locusLine PolyVerif.GbLayout.locusToks locusLine shapeOf
+  simp only [gapped_append, gapped_molToks]
+  unfold toRec polyLayout padAfter
+  simp only [e0, e1, e2, e3]
+  by_cases hl : x.metadata.locus.sequenceLength = [] <;> by_cases hm : x.metadata.locus.moleculeType = []
+    <;> by_cases hd : x.metadata.locus.genbankDivision = [] <;> by_cases ht : x.metadata.locus.modificationDate = []
+    <;> cases hc : x.metadata.locus.circular <;> cases hlin : x.metadata.locus.linear
+    <;> simp [hl, hm, hd, ht, PolyVerif.GbLayout.gapped, PolyVerif.GbLayout.optTok, PolyVerif.GbLayout.topoText,
+          PolyVerif.GbLayout.Topology.text, Str.spaces, spaces, List.replicate_succ]
 
 /-! ### the whole record -/
 
@@ -551,8 +586,8 @@ open PolyVerif.Spec.GbStrict (wfSeq wfLayout singleSpaced wfOther sortedEntries 
 /-- the lines `Build` writes are the C01 layout of the record it was given, with `Build`'s choices -/
 theorem lines_build_eq_layout (x : Sequence) (h : covered x = true) :
     lines (build x MapOrders.id) = PolyVerif.GbLayout.layout (toRec x) (polyLayout x) := by
-  simp only [covered, Bool.and_eq_true, beq_iff_eq, bne_iff_ne, ne_eq] at h
-  obtain ⟨⟨⟨⟨⟨⟨⟨⟨hwf, hmol⟩, htopo⟩, hdiv⟩, hlen⟩, hdvne⟩, hdtne⟩, hfit⟩, _⟩ := h
+  simp only [covered, Bool.and_eq_true] at h
+  obtain ⟨⟨hwf, hfit⟩, _⟩ := h
   have hlay : wfLayout x = true := by
     simp only [wfSeq, Bool.and_eq_true] at hwf
     exact hwf.1.1.1.1
@@ -596,7 +631,7 @@ theorem lines_build_eq_layout (x : Sequence) (h : covered x = true) :
     exact header_glue _ _ _ _ _ _ _ _
   rw [build_lines x hlay, hhdr, featsLines_eq _ hftype, origin_eq hne, list_glue]
   rw [layout_plain (toRec x) (polyLayout x) rfl rfl rfl rfl rfl rfl]
-  rw [← locusLine_eq x hmol htopo hlen hdvne hdtne, k1, k2, k3, k4, k5, k6, k7, k8, k9]
+  rw [← locusLine_eq x, k1, k2, k3, k4, k5, k6, k7, k8, k9]
   rfl
 
 /-- the parser model, run on what `Build` writes, returns what C01's abstract record states -/
@@ -632,19 +667,24 @@ open PolyVerif.Spec.GbStrict (wfSeq wfRefIndex) in
 /-- … and that is the record the writer was given -/
 theorem approx_covered (x : Sequence) (h : covered x = true) :
     approx x (PolyVerif.GbLayout.toSequence (toRec x)) = true := by
-  simp only [covered, Bool.and_eq_true, beq_iff_eq, bne_iff_ne, ne_eq] at h
-  obtain ⟨⟨⟨⟨⟨⟨⟨⟨hwf, hmol⟩, htopo⟩, hdiv⟩, hlen⟩, _⟩, _⟩, _⟩, _⟩ := h
+  simp only [covered, Bool.and_eq_true] at h
+  obtain ⟨⟨hwf, _⟩, _⟩ := h
   have hidx : wfRefIndex 0 x.metadata.references = true := by
     simp only [wfSeq, Bool.and_eq_true] at hwf
     exact hwf.1.1.2
+  have hnb : (x.metadata.locus.circular && x.metadata.locus.linear) = false := by
+    simp only [wfSeq, Bool.and_eq_true, Bool.not_eq_true'] at hwf
+    exact hwf.1.1.1.2
   have hc : ((if x.metadata.locus.circular = true then some PolyVerif.GbLayout.Topology.circular
-        else some PolyVerif.GbLayout.Topology.linear) == some PolyVerif.GbLayout.Topology.circular) = x.metadata.locus.circular := by
-    cases x.metadata.locus.circular <;> decide
+        else if x.metadata.locus.linear = true then some PolyVerif.GbLayout.Topology.linear else none)
+          == some PolyVerif.GbLayout.Topology.circular) = x.metadata.locus.circular := by
+    cases x.metadata.locus.circular <;> cases x.metadata.locus.linear <;> decide
   have hl : ((if x.metadata.locus.circular = true then some PolyVerif.GbLayout.Topology.circular
-        else some PolyVerif.GbLayout.Topology.linear) == some PolyVerif.GbLayout.Topology.linear) = x.metadata.locus.linear := by
+        else if x.metadata.locus.linear = true then some PolyVerif.GbLayout.Topology.linear else none)
+          == some PolyVerif.GbLayout.Topology.linear) = x.metadata.locus.linear := by
     cases hc' : x.metadata.locus.circular <;> cases hl' : x.metadata.locus.linear <;> simp_all <;> decide
   unfold approx PolyVerif.GbLayout.toSequence PolyVerif.GbLayout.toLocus toRec
-  simp only [Bool.and_eq_true, beq_iff_eq, hmol, hdiv, hlen, hc, hl, refs_approx _ 0 hidx, feats_approx, and_true,
+  simp only [Bool.and_eq_true, beq_iff_eq, hc, hl, refs_approx _ 0 hidx, feats_approx, and_true,
     beq_self_eq_true]
 
 end PolyVerif.Lemmas.GbRoundTrip
